@@ -4,4 +4,4 @@ import glob, json, os
 print("| seeded change | property | needs | caught by (quick tier) |\n|---|---|---|---|")
 for f in sorted(glob.glob(os.path.join(os.path.dirname(os.path.abspath(__file__)), "..", "seeded", "*", "meta.json"))):
     m = json.load(open(f))
-    print("| `%s` | %s | %s | %s |" % (m["id"], m["breaks_property"], m["needs_to_manifest"], ", ".join(m["caught_by"])))
+    print("| `%s` | %s | %s | %s |" % (m["id"], m["breaks_property"], m["needs_to_manifest"], ", ".join(m["caught_by"]) or "**not caught** (outside the fault model)"))
